@@ -595,6 +595,80 @@ type RetainResult struct {
 
 // RetainCheck reads all messages with Next(nil), keeps every returned pointer
 // and a deep snapshot, and counts the values that changed afterwards.
+// RetainVia reads all messages through Reader.Messages (scan when scan is set, the default read otherwise) while the caller
+// supplies memory of its own and keeps what it was handed:
+//   - "buf": Next(p) with a different buffer of varying capacity for every call; every (schema, channel, message) returned
+//     is kept and compared with its snapshot once the read is over;
+//   - "into2": NextInto alternating between two Message values (double buffering); after every call the other Message - the
+//     previous result, which the caller still holds - must be what it was when it was returned.
+//
+// N counts the messages, Changed the results found altered.
+func RetainVia(b []byte, scan bool, mode string) (res RetainResult) {
+	defer func() {
+		if p := recover(); p != nil {
+			res.End = "panic"
+		}
+	}()
+	reader, err := mcap.NewReader(bytes.NewReader(b))
+	if err != nil {
+		res.End = "error"
+		return
+	}
+	defer reader.Close()
+	var opts []mcap.ReadOpt
+	if scan {
+		opts = append(opts, mcap.UsingIndex(false))
+	}
+	it, err := reader.Messages(opts...)
+	if err != nil {
+		res.End = "error"
+		return
+	}
+	msgSnap := func(m *mcap.Message) string {
+		return fmt.Sprintf("M%d|%d|%d|%d|%x", m.ChannelID, m.Sequence, m.LogTime, m.PublishTime, m.Data)
+	}
+	if mode == "into2" {
+		var two [2]mcap.Message
+		var snaps [2]string
+		for k := 0; ; k++ {
+			cur, other := &two[k%2], (k+1)%2
+			_, _, m, err := it.NextInto(cur)
+			if err != nil {
+				res.End = ErrClass(err)
+				break
+			}
+			res.N++
+			snaps[k%2] = msgSnap(m)
+			if k > 0 && msgSnap(&two[other]) != snaps[other] {
+				res.Changed++
+			}
+		}
+		return
+	}
+	type kept struct {
+		m    *mcap.Message
+		snap string
+	}
+	var all []kept
+	caps := []int{0, 16, 300, 4096, 70000, 1 << 20, 64, 2048}
+	for k := 0; ; k++ {
+		p := make([]byte, caps[k%len(caps)])
+		_, _, m, err := it.Next(p)
+		if err != nil {
+			res.End = ErrClass(err)
+			break
+		}
+		all = append(all, kept{m, msgSnap(m)})
+	}
+	res.N = len(all)
+	for _, k := range all {
+		if msgSnap(k.m) != k.snap {
+			res.Changed++
+		}
+	}
+	return
+}
+
 func RetainCheck(b []byte) (res RetainResult) {
 	defer func() {
 		if p := recover(); p != nil {
